@@ -56,6 +56,35 @@ pub fn main(args: &[String]) -> i32 {
                 let schedule = (1..=n).map(|i| (Timestamp::from(1000 * i), amount)).collect();
                 construct::transfer_with_schedule(nsigs, sender, nonce, expiry, to, schedule)
             }
+            "deploy_module" => {
+                use concordium_base::smart_contracts::{ModuleSource, WasmModule, WasmVersion};
+                let version = if p["version"].as_u64().unwrap() == 0 { WasmVersion::V0 } else { WasmVersion::V1 };
+                construct::deploy_module(nsigs, sender, nonce, expiry, WasmModule { version, source: ModuleSource::from(vec![0u8; p["size"].as_u64().unwrap() as usize]) })
+            }
+            "init_contract" => {
+                use concordium_base::{smart_contracts::{OwnedContractName, OwnedParameter}, transactions::InitContractPayload};
+                let payload = InitContractPayload {
+                    amount,
+                    mod_ref: concordium_base::contracts_common::ModuleReference::from([7u8; 32]),
+                    init_name: OwnedContractName::new_unchecked("init_c".into()),
+                    param: OwnedParameter::new_unchecked(vec![1u8; p["plen"].as_u64().unwrap() as usize]),
+                };
+                construct::init_contract(nsigs, sender, nonce, expiry, payload, concordium_base::base::Energy::from(p["given"].as_u64().unwrap()))
+            }
+            "update_contract" => {
+                use concordium_base::{smart_contracts::{OwnedParameter, OwnedReceiveName}, transactions::UpdateContractPayload};
+                let payload = UpdateContractPayload {
+                    amount,
+                    address: concordium_base::contracts_common::ContractAddress::new(3, 0),
+                    receive_name: OwnedReceiveName::new_unchecked("c.f".into()),
+                    message: OwnedParameter::new_unchecked(vec![1u8; p["plen"].as_u64().unwrap() as usize]),
+                };
+                construct::update_contract(nsigs, sender, nonce, expiry, payload, concordium_base::base::Energy::from(p["given"].as_u64().unwrap()))
+            }
+            "remove_baker" => construct::remove_baker(nsigs, sender, nonce, expiry),
+            "update_baker_stake" => construct::update_baker_stake(nsigs, sender, nonce, expiry, amount),
+            "update_baker_restake" => construct::update_baker_restake_earnings(nsigs, sender, nonce, expiry, p["flag"].as_bool().unwrap()),
+            "transfer_to_encrypted" => construct::transfer_to_encrypted(nsigs, sender, nonce, expiry, amount),
             other => return Err((format!("unknown kind {}", other), Value::Null, Value::Null)),
         };
         let exp_payload = eval_term(&v["payload"]);
